@@ -877,6 +877,62 @@ func resolveParam(v ssa.Value, ctx *Ctx) (ssa.Value, *Ctx) {
 	}
 }
 
+// resolveBundleField: v reads a field of a by-value struct parameter (spilled into a local) that
+// the call site binds to a struct literal: the value the caller's literal stores into that field,
+// in the caller's context.
+func resolveBundleField(v ssa.Value, ctx *Ctx) (ssa.Value, *Ctx, bool) {
+	var base ssa.Value
+	field := -1
+	switch x := v.(type) {
+	case *ssa.UnOp:
+		fa, ok := x.X.(*ssa.FieldAddr)
+		if !ok || x.Op != token.MUL {
+			return nil, nil, false
+		}
+		al, ok := fa.X.(*ssa.Alloc)
+		if !ok {
+			return nil, nil, false
+		}
+		var whole []ssa.Value
+		for _, r := range *al.Referrers() {
+			if st, ok := r.(*ssa.Store); ok && st.Addr == ssa.Value(al) {
+				whole = append(whole, st.Val)
+			}
+		}
+		if len(whole) != 1 {
+			return nil, nil, false
+		}
+		base, field = whole[0], fa.Field
+	case *ssa.Field:
+		base, field = x.X, x.Field
+	default:
+		return nil, nil, false
+	}
+	arg, actx := resolveParam(base, ctx)
+	ld, ok := arg.(*ssa.UnOp)
+	if !ok || ld.Op != token.MUL {
+		return nil, nil, false
+	}
+	lit, ok := ld.X.(*ssa.Alloc)
+	if !ok || lit.Comment != "complit" {
+		return nil, nil, false
+	}
+	var vals []ssa.Value
+	for _, r := range *lit.Referrers() {
+		if fa, ok := r.(*ssa.FieldAddr); ok && fa.Field == field {
+			for _, rr := range *fa.Referrers() {
+				if st, ok := rr.(*ssa.Store); ok && st.Addr == ssa.Value(fa) {
+					vals = append(vals, st.Val)
+				}
+			}
+		}
+	}
+	if len(vals) != 1 {
+		return nil, nil, false
+	}
+	return vals[0], actx, true
+}
+
 // zeroEdgesOnlyUnder: v is a (possibly nested) phi; every incoming edge whose value is a
 // nil/zero constant comes from a block dominated by the side of an If selected by guard.
 // Returns the position of an offending edge's predecessor block ("" if none) and whether any
@@ -969,7 +1025,14 @@ func ruleChainLinks(c *Check, p *Prog, g *Graph, step *ssa.Function, hdrLit *ssa
 		return 1, true
 	}
 	check := func(name string, v ssa.Value, ctx *Ctx, pos string) {
-		v, _ = resolveParam(v, ctx)
+		v, ctx = resolveParam(v, ctx)
+		for i := 0; i < 3; i++ {
+			v2, ctx2, ok := resolveBundleField(v, ctx)
+			if !ok {
+				break
+			}
+			v, ctx = resolveParam(v2, ctx2)
+		}
 		// look through a local variable that is kept in memory
 		if u, ok := v.(*ssa.UnOp); ok {
 			if al, ok := u.X.(*ssa.Alloc); ok {
